@@ -285,6 +285,52 @@ def routing(ai: int, ri: int, sender: int, raises: bool) -> bool:
     return hx.check(inputs, (got, rc), ([0] * len(b.apps), [code]), "no matching application: the node answers itself and no application sees the request")
 
 
+# ----------------------------------------------------------------------------- B2. an application registered while traffic is flowing
+def late_app(ri: int, pre: int, second: bool) -> bool:
+    """
+    pre: 0 <= ri <= 1 and 0 <= pre <= 2
+    post: _
+    """
+    hx.begin()
+    # peer 1 is connected and ready through application A (id 4); application G (id 3) is registered only later, for peer 1 and
+    # - ri == 1 - an additional realm.  Before that, `pre` requests for G's application id and realm have been answered 3007 /
+    # 3003; afterwards the same request must reach G exactly once.
+    r = hx.concretize_range(ri, 0, 2)
+    npre = hx.concretize_range(pre, 0, 3)
+    second = bool(hx.concretize(second))
+    inputs = (ri, pre, second)
+    # ri == 0: the peers live in the node's realm, requests are for that realm.  ri == 1: the peers live in 'visited.realm',
+    # requests are for the node's own realm, which the applications serve as an additional realm (realms=[...])
+    realm = B.REALM
+    try:
+        with hx.untraced():
+            b = B.Bench(n_peers=2, apps=((4, "auth"),), app_peers=[[0, 1]], peer_realms=([None, ["visited.realm", "visited.realm"]][r]),
+                        realms=([None, [B.REALM]][r]))
+            n = b.node
+            c, s = b.accept("10.0.1.1")
+            b.inject(c, B.cer(B.PEER_HOSTS[0], apps=[4, 3], acct=[3]))
+            drain(c)
+            acr = C03.CLASSES["m:accounting.AccountingRequest"]
+
+            def req(i):
+                m = _fill(acr())
+                m.destination_realm = realm.encode()
+                m.header.application_id = 3
+                m.header.hop_by_hop_identifier = 70 + i
+                m.header.end_to_end_identifier = 70 + i
+                b.inject(c, Message.from_bytes(m.as_bytes()))
+                return [getattr(a, "result_code", None) for a in drain(c) if not a.header.is_request]
+            before = [req(i) for i in range(npre)]
+            g = B.RecApp(3, is_acct_application=True)
+            n.add_application(g, [b.peers[0]] + ([b.peers[1]] if second else []), [B.REALM] if r else None)
+            after = req(5)
+            obs = (before, after, len(g.requests), len(b.apps[0].requests))
+            exp = ([[3007]] * npre, [], 1, 0)
+    except Exception as e:
+        return hx.fail(inputs, "raised %s: %s" % (type(e).__name__, str(e)[:80]))
+    return hx.check(inputs, obs, exp, "a request matching an application that was registered after earlier requests were refused must reach that application exactly once")
+
+
 def base_never_to_app(kind: int) -> bool:
     """
     pre: 0 <= kind <= 2
@@ -326,6 +372,8 @@ def specs(tier, seed, carve):
         for cmd in ("ccr", "acr"):
             out.append(dict(id="routing/cfg%d/%s" % (cfg, cmd), fn="routing", params={"cfg": cfg, "cmd": cmd}, timeout=900,
                             bound="node configuration %d, %s: application id {4, 3, 9} x realm {own, additional, foreign} x sender {peer1, peer2, peer3 (unconfigured), unknown} x handler raises" % (cfg, cmd)))
+    out.append(dict(id="late_app", fn="late_app", params={}, timeout=300,
+                    bound="application registered (for the peer's realm / an additional realm; for one or two peers) after 0..2 requests for it were refused with 3007 / 3003; then the same request"))
     out.append(dict(id="base_never_to_app", fn="base_never_to_app", params={}, timeout=120, bound="CER, DWR, DPR carrying a registered application id"))
     return out
 
